@@ -899,6 +899,11 @@ func racePass(e entry, wd, tier string, seed int64) (map[string]any, []violation
 			if len(sites) < 2 {
 				continue
 			}
+			if strings.Contains(blk, ".zzResetGlobals") {
+				// the harness re-initialising package state for the next program
+				// while a thread of an abandoned (slow) execution is still running
+				continue
+			}
 			ok := true
 			for _, st := range sites[:2] {
 				if !inst[st.file] || !strings.Contains(st.dir, e.Pkg) {
